@@ -113,7 +113,7 @@ func runC16(c *Ctx) {
 			fmt.Sprintf("independent decryption with eph(32)||nonce(12)||ct||tag(16) ok=%v, len=%d for %d-byte plaintext", iok, len(enc), len(plain)))
 		// decrypt through the library (needs an EncryptedLeaseSet value carrying the data)
 		k := genEd(r)
-		els, nerr := encrypted_leaseset.NewEncryptedLeaseSet(7, cp(k.pub), 1, 1, 0, nil, enc, stdPriv(k))
+		els, nerr := encrypted_leaseset.NewEncryptedLeaseSet(7, cp(k.pub), 1, 1, 0, nil, cp(enc), stdPriv(k))
 		if nerr != nil {
 			continue
 		}
@@ -128,6 +128,21 @@ func runC16(c *Ctx) {
 		_, priv2, _ := x25519.GenerateKey(detRand{r})
 		d2, e2 := els.DecryptInnerData(cookie[:], priv2)
 		c.Check("wrong_key_rejected", e2 != nil && d2 == nil, "DecryptInnerData", [][]byte{enc}, "", "decryption with another private key returned a value")
+		// decryption is a query: after a successful and a refused attempt, the matching key still
+		// decrypts the same (untouched) value to the same bytes, and the value serialises as before
+		elsB0, _ := els.Bytes()
+		for rep := 0; rep < 2; rep++ {
+			dr, er := els.DecryptInnerData(cookie[:], priv)
+			okr := er == nil && dr != nil
+			if okr {
+				db, _ := dr.Bytes()
+				okr = bytes.Equal(db, plain)
+			}
+			c.Check("decrypt_encrypt_identity", okr, "DecryptInnerData (repeated)", [][]byte{plain}, "", fmt.Sprintf("decryption attempt %d on the same value after earlier attempts: err=%v", rep+2, er))
+			els.DecryptInnerData(cookie[:], priv2)
+		}
+		elsB1, _ := els.Bytes()
+		c.Check("decrypt_encrypt_identity", bytes.Equal(elsB0, elsB1), "DecryptInnerData (repeated)", [][]byte{plain}, "", "the EncryptedLeaseSet serialises differently after decryption attempts")
 		// every single-byte modification of the ciphertext (all offsets in thorough, a spread in quick)
 		step := 1
 		if c.Tier == "quick" {
